@@ -25,6 +25,7 @@ PROFILE = {
     "C15": {"n": {"quick": 10, "thorough": 60}, "auto": {"prefix_cap": 0, "all_upto": 0, "random": 0, "builtin": False}, "perms": 6},
     "C14": {"n": {"quick": 14, "thorough": 80}, "auto": {"prefix_cap": 0, "all_upto": 0, "random": 0, "builtin": True}, "perms": 0, "json_only": True,
             "faulty": True},
+    "C09": {"n": {"quick": 10, "thorough": 60}, "auto": {"prefix_cap": 8, "all_upto": 4, "random": 2, "builtin": True}, "perms": 1, "extras": True},
     "C12": {"n": {"quick": 10, "thorough": 60}, "auto": {"prefix_cap": 6, "all_upto": 3, "random": 3, "builtin": True}, "perms": 1},
 }
 
@@ -171,8 +172,13 @@ def gen_inputs(pid, tier, seed, extra_defs=(), extra_entries=()):
             if prof["perms"] and nm > 0:
                 perms = coregen.top_perms(val, 24 if tier == "thorough" else 6) if i % 2 == 0 else []
                 perms += [coregen.permute(val, rng) for _ in range(prof["perms"])]
-            recs.append({"ty": eid, "val": val, "src": "json" if (i % 2 == 0 or prof.get("json_only")) else "ov", "grp": "start", "perm": False,
-                         "auto": prof["auto"], "perms": perms})
+            rec = {"ty": eid, "val": val, "src": "json" if (i % 2 == 0 or prof.get("json_only")) else "ov", "grp": "start", "perm": False,
+                   "auto": prof["auto"], "perms": perms}
+            if prof.get("extras") and not coregen.has_deny(ty, pg.defs):
+                ex = coregen.add_extras(ty, val, pg.defs, rng)
+                if ex != val:
+                    rec["extras"] = [ex]
+            recs.append(rec)
     recs += systematic_inputs(ents, rng, dict(prof["auto"], all_upto=min(prof["auto"]["all_upto"], 3), random=min(prof["auto"]["random"], 1)),
                               1 if prof["perms"] else 0, extra_defs)
     if pid == "C15":
@@ -349,7 +355,7 @@ def run(pid, tier, prop=None):
     mcin_free = os.path.join(tdir, "%s-mcin-free.ndjson" % pid)
     mcin_canon = os.path.join(tdir, "%s-mcin-canon.ndjson" % pid)
     nmc_free = mc_inputs_from_trace(t1, mcin_free, 7 if tier == "quick" else 9, 220 if tier == "quick" else 1200, 3 if tier == "quick" else 4)
-    nmc_canon = mc_inputs_from_trace(t1, mcin_canon, 12 if tier == "quick" else 16, 300 if tier == "quick" else 1500)
+    nmc_canon = mc_inputs_from_trace(t1, mcin_canon, 9 if tier == "quick" else 16, 200 if tier == "quick" else 1500)
     mc_runs = []
     states = transitions = 0
     violations = []
